@@ -360,13 +360,29 @@ func (g *gen) stepRandom() {
 			case 2:
 				subs = append(subs, fmt.Sprintf("GET %d %d %s 1", c, h, g.existingQueue(sn)))
 			case 3:
+				q := g.existingQueue(sn)
+				if g.kind == "exact" {
+					// a delivery racing the replies of the burst would make the frame order timing dependent
+					busy := false
+					for _, qq := range sn.Queues {
+						if qq.Name == q && len(qq.Consumers) > 0 {
+							busy = true
+						}
+					}
+					if busy {
+						continue
+					}
+				}
 				g.uid++
-				subs = append(subs, fmt.Sprintf("PUB %d %d - %s 0 0 0 %d %d", c, h, g.existingQueue(sn), g.uid, 1+g.r.Intn(9)))
+				subs = append(subs, fmt.Sprintf("PUB %d %d - %s 0 0 0 %d %d", c, h, q, g.uid, 1+g.r.Intn(9)))
 			case 4:
 				subs = append(subs, fmt.Sprintf("QP %d %d %s %s", c, h, g.existingQueue(sn), g.b(1, 4)))
 			default:
 				subs = append(subs, fmt.Sprintf("XD %d %d %s direct 0 0 0 %s 0", c, h, g.pick(xnames), g.b(1, 2)))
 			}
+		}
+		if len(subs) == 0 {
+			return
 		}
 		g.do("MULTI " + strings.Join(subs, " | "))
 		return
